@@ -73,6 +73,7 @@ func c09Enumerate(tier string, emit func(*eng.Case)) {
 		c.HTML = strings.Replace(c.HTML, "<title>"+ora.DefaultTitle+"</title>", "", 1)
 		emit(c)
 	})
+	crossEmit(tier, "views", 1, emit)
 }
 
 // imageCandidates lists, in document order, the src and srcset candidate URLs of the img and
@@ -149,16 +150,17 @@ func init() {
 		ID:        "C09",
 		DesignRef: "§5 C09",
 		Rule: "docspace BFS from S1,S2 with <= 2 (quick) / <= 3 (thorough) insertions over 36 atoms covering every element kind (images with src+srcset, relative URLs, lazy images, picture, tables with images, figures, embeds, punctuation), with and without page URL; " +
-			"plus the title-less text-only sub-space (18 atoms, including a sidebar-classed link cluster so that the two extraction passes differ) for the WordCount clause. Oracle: words(Text) == words(visible text of result.Node) outside embed placeholders; ContentImages is an in-order subsequence of the HTML's img/source src+srcset candidates; WordCount == |words(Text)| in the text-only sub-space when Title is empty. " +
+			"plus the title-less text-only sub-space (18 atoms, including a sidebar-classed link cluster so that the two extraction passes differ) for the WordCount clause." + crossRule + " Oracle: words(Text) == words(visible text of result.Node) outside embed placeholders; ContentImages is an in-order subsequence of the HTML's img/source src+srcset candidates; WordCount == |words(Text)| in the text-only sub-space when Title is empty. " +
 			"Non-trivial = some text dropped, >= 20 words kept and (images listed or word-count clause applies).",
 		Enumerate: c09Enumerate,
 		Check:     c09Check,
+		Prepare:   func(tier string) { CrossCorpus(tier) },
 		Bounds: func(tier string) map[string]any {
 			e := 2
 			if tier == "thorough" {
 				e = 3
 			}
-			return map[string]any{"max_edits_views": e, "max_edits_wordcount": e, "atoms": len(c09Alphabet), "atoms_textonly": len(c09TextOnly)}
+			return map[string]any{"max_edits_views": e, "max_edits_wordcount": e, "atoms": len(c09Alphabet), "atoms_textonly": len(c09TextOnly), "cross": crossBounds(tier)}
 		},
 	})
 }
